@@ -970,3 +970,289 @@ class RemoteEval(_CHarness):
 
 
 HARNESSES['remote_eval'] = RemoteEval
+
+
+# ===========================================================================
+# C16 / C06 (b): pipelines on a worker pool
+# ===========================================================================
+
+class ShardedPipelines(_CHarness):
+  """orchestrate.sharded_pipelines_as_iterator over PrefetchedCourierServers.
+
+  params: W workers, S shards, total rows, batch size, ibs iterate_batch_size,
+  fuse, menu (fault kinds for the generator RPCs), retry_threshold, agg
+  """
+  name = 'sharded'
+  tick = 15.0
+  max_steps = 150000
+  max_clock = 2500.0
+
+  def __init__(self, W=1, S=1, total=4, batch=2, ibs=1, fuse=True, menu=(),
+               retry=None, agg=True, timeout=60, mode='preempt', push=True):
+    self.params = dict(W=W, S=S, total=total, batch=batch, ibs=ibs, fuse=fuse,
+                       menu=list(menu), retry=retry, agg=agg, timeout=timeout,
+                       mode=mode, push=push)
+    self.mode = mode
+    _m()
+
+  def setup(self):
+    m = _m()
+    p = self.params
+    from vmc import vqueue
+    self.batches, self.end, self.results, self.after = [], None, [], None
+
+    def body():
+      clients = ()
+      host = None
+      if p['push']:
+        host = m.courier_server.CourierServer('host')
+        host.start()
+        clients = ('host',)
+      servers = [m.courier_server.PrefetchedCourierServer(
+          f'w{i}', clients=clients, prefetch_size=2) for i in range(p['W'])]
+      for s in servers:
+        s.start()
+      pool = m.courier_worker.WorkerPool(
+          [f'w{i}' for i in range(p['W'])], call_timeout=p['timeout'],
+          iterate_batch_size=p['ibs'])
+      pool.wait_until_alive(minimum_num_workers=p['W'])
+      fake_courier.NET.menu = {'next_batch_from_generator': list(p['menu']),
+                               'init_generator': list(p['menu'])}
+      rq = vqueue.SimpleQueue() if p['agg'] else None
+      kw = {}
+      if p['retry'] is not None:
+        kw['retry_threshold'] = p['retry']
+      try:
+        for b in m.orchestrate.sharded_pipelines_as_iterator(
+            pool, fx.sharded_pipeline, total=p['total'], batch_size=p['batch'],
+            num_shards=p['S'], fuse=p['fuse'], agg=p['agg'], result_queue=rq,
+            **kw):
+          self.batches.append(b)
+        self.end = ('ok',)
+      except sched.Abort:
+        raise
+      except BaseException as e:  # pylint: disable=broad-except
+        self.end = ('exc', e)
+      fake_courier.NET.menu = {}
+      if rq is not None and self.end == ('ok',):
+        from vmc import vtime
+        waited = 0
+        while rq.qsize() == 0 and waited < 50:
+          vtime.sleep(1.0)
+          waited += 1
+        while rq.qsize():
+          self.results.append(rq.get_nowait())
+      self.after = dict(
+          acquired=[w.address for w in pool.acquired_workers],
+          locked=[w.address for w in pool.all_workers if w.is_locked()],
+          calls=[c for c in fake_courier.NET.calls if c[1] != 'heartbeat'])
+      for s in servers + ([host] if host else []):
+        if s.has_started:
+          s.stop()
+    return body
+
+  def reference(self):
+    p = self.params
+    it = fx.sharded_pipeline(p['total'], p['batch'], fuse=p['fuse'],
+                             agg=p['agg']).make().iterate()
+    batches = [b for b in it]
+    return batches, (it.agg_result if p['agg'] else None)
+
+  def outcome(self, res):
+    return (res.failure and res.failure[0], len(self.batches),
+            self.end and self.end[0],
+            tuple(repr(getattr(r, 'agg_result', r)) for r in self.results))
+
+  def _cfg(self):
+    p = self.params
+    return (f'W{p["W"]}:S{p["S"]}:{"fused" if p["fuse"] else "unfused"}:'
+            f'ibs{p["ibs"]}')
+
+  def check(self, res):
+    p = self.params
+    cfg = self._cfg()
+    out = []
+    if res.failure:
+      kind, info = res.failure
+      calls = [c for c in fake_courier.NET.calls if c[1] != 'heartbeat']
+      killed = {c[0] for c in calls if c[2] == 'kill'}
+      if kind == 'horizon' and len(killed) >= p['W']:
+        # no worker stays usable: outside the property's precondition (the
+        # driver polls for ever; the virtual-time horizon ends the run)
+        return []
+      prop = 'C06' if p['menu'] else 'C16'
+      fault = next((c[2] for c in calls if c[2] != 'ok'), 'none')
+      return [(f'{prop}:sharded:{kind}{_stuck(kind, info)}:{fault}:{cfg}',
+               {'failure': kind, 'info': _info(info), 'calls': calls})]
+    faults = [c for c in self.after['calls'] if c[2] != 'ok']
+    prop = 'C06' if faults or p['menu'] else 'C16'
+    fault = faults[0][2] if faults else 'none'
+    ref_batches, ref_agg = self.reference()
+    norm = lambda b: repr(b)
+    want = collections.Counter(map(norm, ref_batches))
+    got = collections.Counter(map(norm, [b for b in self.batches]))
+    killed = {c[0] for c in faults if c[2] == 'kill'}
+    usable = p['W'] - len(killed)
+    if self.end == ('ok',):
+      if set(got) - set(want):
+        out.append((f'{prop}:sharded:invented-batch:{fault}:{cfg}',
+                    {'got': sorted(got), 'want': sorted(want)}))
+      missing = set(want) - set(got)
+      if missing:
+        out.append((f'{prop}:sharded:batch-not-delivered:{fault}:{cfg}',
+                    {'missing': sorted(missing)}))
+      if not faults and got != want:
+        out.append((f'{prop}:sharded:batch-multiset-differs:{fault}:{cfg}',
+                    {'got': sorted(got.items()), 'want': sorted(want.items())}))
+      if p['agg']:
+        if len(self.results) != 1:
+          out.append((f'{prop}:sharded:aggregate-result-count:{fault}:{cfg}',
+                      {'results': repr(self.results)}))
+        else:
+          r = self.results[0]
+          val = getattr(r, 'agg_result', None)
+          if not _agg_equal(val, ref_agg):
+            out.append((f'{prop}:sharded:aggregate-differs:{fault}:{cfg}',
+                        {'got': repr(val), 'want': repr(ref_agg)}))
+    else:
+      e = self.end[1]
+      exhausted = p['retry'] is not None and len(faults) > p['retry']
+      if usable > 0 and not exhausted:
+        out.append((f'{prop}:sharded:unexpected-error-with-usable-worker:{fault}:{cfg}',
+                    {'end': repr(e), 'calls': self.after['calls']}))
+      elif exhausted and not isinstance(e, TimeoutError):
+        out.append((f'{prop}:sharded:wrong-error-when-retries-exhausted:{fault}:{cfg}',
+                    {'end': repr(e)}))
+    if self.after['acquired'] or self.after['locked']:
+      out.append((f'{prop}:sharded:workers-left-acquired:{cfg}',
+                  {'after': self.after}))
+    return out
+
+
+def _agg_equal(a, b):
+  try:
+    if a is None or b is None:
+      return a is b
+    da = dict(a.items()) if hasattr(a, 'items') else a
+    db = dict(b.items()) if hasattr(b, 'items') else b
+    return da == db
+  except Exception:  # pylint: disable=broad-except
+    return False
+
+
+HARNESSES['sharded'] = ShardedPipelines
+
+
+class Interleaved(_CHarness):
+  """orchestrate.run_pipeline_interleaved: stages of a chained pipeline run
+  concurrently, connected by (Async)IteratorQueues; optionally the 'apply'
+  stage runs on a worker pool fed through a RemoteIteratorQueue.
+
+  params: total, batch, fuse, pool (bool), W, buf, nworkers (cap), threads
+  """
+  name = 'interleaved'
+  tick = 15.0
+  max_steps = 150000
+  max_clock = 2500.0
+
+  def __init__(self, total=4, batch=2, fuse=True, pool=False, W=1, buf=0,
+               nworkers=None, mode='preempt'):
+    self.params = dict(total=total, batch=batch, fuse=fuse, pool=pool, W=W,
+                       buf=buf, nworkers=nworkers, mode=mode)
+    self.mode = mode
+    _m()
+
+  def setup(self):
+    m = _m()
+    p = self.params
+    self.batches, self.end, self.returned = [], None, None
+    self.after = None
+
+    def body():
+      servers, host, master, pool = [], None, None, None
+      if p['pool']:
+        host = m.courier_server.CourierServer('host')
+        host.start()
+        servers = [m.courier_server.PrefetchedCourierServer(
+            f'w{i}', clients=('host',)) for i in range(p['W'])]
+        for s in servers:
+          s.start()
+        pool = m.courier_worker.WorkerPool([f'w{i}' for i in range(p['W'])])
+        master = m.courier_server.CourierServer('master', clients=('host',))
+      pipeline = fx.sharded_pipeline(p['total'], p['batch'], fuse=p['fuse'],
+                                     num_threads=0)
+      res = {'datasource': m.orchestrate.RunnerResource(buffer_size=p['buf'])}
+      if pool is not None:
+        kw = {}
+        if p['nworkers']:
+          kw['num_workers'] = p['nworkers']
+        res['apply'] = m.orchestrate.RunnerResource(worker_pool=pool,
+                                                    buffer_size=p['buf'], **kw)
+      try:
+        with m.orchestrate.run_pipeline_interleaved(
+            pipeline, master_server=master, resources=res,
+            aggregate_only=False) as runner:
+          for b in runner.result_queue:
+            self.batches.append(b)
+        self.returned = list(runner.result_queue.returned)
+        self.end = ('ok',)
+      except sched.Abort:
+        raise
+      except BaseException as e:  # pylint: disable=broad-except
+        self.end = ('exc', e)
+      if pool is not None:
+        self.after = dict(
+            acquired=[w.address for w in pool.acquired_workers],
+            locked=[w.address for w in pool.all_workers if w.is_locked()])
+      for s in servers + [x for x in (host, master) if x is not None]:
+        if s.has_started:
+          s.stop()
+    return body
+
+  def reference(self):
+    p = self.params
+    it = fx.sharded_pipeline(p['total'], p['batch'], fuse=p['fuse']).make().iterate()
+    batches = [b for b in it]
+    return batches, it.agg_result
+
+  def outcome(self, res):
+    return (res.failure and res.failure[0], tuple(map(repr, self.batches)),
+            self.end and self.end[0], repr(self.returned)[:80])
+
+  def check(self, res):
+    p = self.params
+    cfg = (f'{"pool" if p["pool"] else "in-process"}:'
+           f'{"fused" if p["fuse"] else "unfused"}:buf{"0" if not p["buf"] else "N"}')
+    prop = 'C16' if p['pool'] else 'C03'
+    if res.failure:
+      kind, info = res.failure
+      return [(f'{prop}:interleaved:{kind}{_stuck(kind, info)}:{cfg}',
+               {'failure': kind, 'info': _info(info)})]
+    out = []
+    if self.end != ('ok',):
+      return [(f'{prop}:interleaved:raised:{cfg}', {'end': repr(self.end)})]
+    ref_batches, ref_agg = self.reference()
+    want = collections.Counter(map(repr, ref_batches))
+    got = collections.Counter(map(repr, self.batches))
+    if got != want:
+      out.append((f'{prop}:interleaved:batch-multiset-differs:{cfg}',
+                  {'got': sorted(got.items()), 'want': sorted(want.items())}))
+    if not self.returned or len(self.returned) != 1:
+      out.append((f'{prop}:interleaved:aggregate-result-count:{cfg}',
+                  {'returned': repr(self.returned)}))
+    else:
+      val = getattr(self.returned[0], 'agg_result', None)
+      if not _agg_equal(val, ref_agg):
+        out.append((f'{prop}:interleaved:aggregate-differs:{cfg}',
+                    {'got': repr(val), 'want': repr(ref_agg)}))
+    if self.after and (self.after['acquired'] or self.after['locked']):
+      out.append((f'{prop}:interleaved:workers-left-acquired:{cfg}',
+                  {'after': self.after}))
+    if res.leftover:
+      left = [t for t in res.leftover if not t.startswith('h:')]
+      if left:
+        out.append((f'{prop}:interleaved:threads-left:{cfg}', {'left': left}))
+    return out
+
+
+HARNESSES['interleaved'] = Interleaved
